@@ -38,15 +38,15 @@ else
 fi
 echo "demo with change rc=$W (want != 0); without rc=$WO (want 0); suite with change rc=$S (want 0)"
 cd /verif
-git -C /repo apply "$OUT/patch.diff" || { echo "patch does not apply to /repo"; exit 2; }
+# the checks run against the scratch worktree itself (it holds the change); /repo is never touched
+mv "$WT/$DEMO" /tmp/seeded_demo_hold_$NAME.rs 2>/dev/null
 RES=""
 for c in $CHECKS; do
-  ./check $c quick > "$OUT/check_$c.log" 2>&1; rc=$?
+  VERIF_REPO="$WT" ./check $c quick > "$OUT/check_$c.log" 2>&1; rc=$?
   RES="$RES $c:rc=$rc"
   grep -m3 "^failure" "$OUT/check_$c.log"
 done
-git -C /repo checkout -- .
-git -C /repo status --short | head -3
+mv /tmp/seeded_demo_hold_$NAME.rs "$WT/$DEMO" 2>/dev/null
 rm -rf /verif/replays/*/found_*
 echo "RESULT $NAME demo_with=$W demo_without=$WO suite=$S checks:$RES"
 python3 - "$OUT" "$W" "$WO" "$S" "$RES" <<'PY'
